@@ -135,6 +135,10 @@ class Agent(object):
     def now(self, clock):
         return int(self._send('now %d' % clock).split()[1])
 
+    def res(self, clock):
+        """clock_getres of the host clock behind WASI clock id `clock`, read in the agent process (ns)"""
+        return int(self._send('res %d' % clock).split()[1])
+
     def burn(self, ms):
         """another thread of the agent process consumes `ms` milliseconds of CPU time and ends"""
         self._send('burn %d' % ms)
